@@ -262,7 +262,10 @@ class HTTP(BaseComponent):
                 req.server = self._server
                 res = wrappers.Response(req, encoding=self._encoding)
                 # never label the answer with a version we do not speak
-                res.protocol = 'HTTP/{:d}.{:d}'.format(*min(req.protocol, self.protocol))
+                # (nor with HTTP/0.9, which has no status line at all)
+                sp = self.protocol
+                rp = req.protocol if req.protocol[0] == sp[0] else sp
+                res.protocol = 'HTTP/{:d}.{:d}'.format(*min(rp, sp))
                 del self._buffers[sock]
                 return self.fire(httperror(req, res, 400))
             return None
